@@ -126,77 +126,93 @@ def run_case(case, stats):
         if any(n[0] == "join" and engine_of(n, leaves) != 0 for n in walk(prog)):
             stats.c["skipped:iteration-join"] += 1
             return
-        memo = {}
-        ev_multi(prog, leaves, memo=memo)
+        from vf.core.prog import twin_leaves
+
         env = Env(leaves)
         try:
-            rels = {}
             nontrivial = False
-            for node in walk(prog):
-                if node[0] == "leaf":
-                    rels[id(node)] = env.leafrels[node[1]]
-                    continue
-                ops = [rels.get(id(c)) for c in children(node)]
-                if any(o is None for o in ops):
-                    continue
-                index = {}
-                for o in ops:
-                    locked_index(o, index)
-                what = fmt(node, leaves)
-                try:
-                    res = apply_node(node, ops, env)
-                except Exception as e:
-                    if is_order_loss(e) or isinstance(e, (ColumnError, EngineError)):
-                        stats.c["call:refused"] += 1
+
+            def run_program(envx, leavesx, label):
+                nonlocal nontrivial
+                memo = {}
+                ev_multi(prog, leavesx, memo=memo)
+                rels = {}
+                for node in walk(prog):
+                    if node[0] == "leaf":
+                        rels[id(node)] = envx.leafrels[node[1]]
                         continue
-                    raise Violation("call-raised", f"{what}: {type(e).__name__}: {e}", sig=exc_sig(e))
-                rels[id(node)] = res
-                check_locked(res, index, what)
-                stats.c["calls_checked"] += 1
-                # transfer to the relation's own engine: original content, same engine
-                try:
-                    same = res.transferred_to(res.engine)
-                except Exception as e:
-                    raise Violation("self-transfer-raised", f"transferred_to(own engine) raised {type(e).__name__}: {e}; relation {str(res)[:200]}", sig=exc_sig(e))
-                if same is not res:
-                    if same.engine is not res.engine:
-                        raise Violation("transfer-wrong-engine", f"transferred_to(own engine) returned a relation in {same.engine}; relation {str(res)[:200]}")
-                    truth = memo[id(node)]
+                    ops = [rels.get(id(c)) for c in children(node)]
+                    if any(o is None for o in ops):
+                        continue
+                    index = {}
+                    for o in ops:
+                        locked_index(o, index)
+                    what = label + fmt(node, leavesx)
                     try:
-                        got = execute_processed(env, make_processor(env).process(same))
-                    except Exception:
-                        got = None
-                    if got is not None:
-                        bad = compare(truth, got)
-                        if bad:
-                            raise Violation("transfer-changed-content", f"transferred_to(own engine): {bad}; result {str(same)[:200]}; relation {str(res)[:200]}")
-                    stats.c["self-transfer:new-object"] += 1
-                if node[0] == "mat":
-                    src = peel_same_engine_markers(ops[0])
-                    if isinstance(src, (LeafRelation, Materialization)) and count_mats(res) != count_mats(ops[0]):
-                        raise Violation("materialization-added", f"materialized() of a {type(src).__name__} added a Materialization node: {str(res)[:200]}; call {what}")
-                if node[0] == "xfer":
-                    dest = env.engines[node[2]]
-                    if res.engine is not dest:
-                        raise Violation("transfer-wrong-engine", f"result lives in {res.engine}, requested {dest}; call {what}")
-                    truth = memo[id(node)]
-                    proc = make_processor(env)
-                    try:
-                        got = execute_processed(env, proc.process(res))
-                    except DatabaseError:
-                        got = None
+                        res = apply_node(node, ops, envx)
                     except Exception as e:
-                        # whether an accepted tree can be compiled / processed at all is C08's and C07's subject
-                        stats.c["transfer:result-not-executable-" + type(e).__name__] += 1
-                        got = None
-                    if got is not None:
-                        bad = compare(truth, got)
-                        if bad:
-                            raise Violation("transfer-changed-content", f"{bad}; result {str(res)[:200]}; call {what}")
-                        stats.c["transfers_compared"] += 1
-                    if node[1][0] == "xfer":
-                        stats.c["transfer-chain"] += 1
-                        nontrivial = True
+                        if is_order_loss(e) or isinstance(e, (ColumnError, EngineError)):
+                            stats.c["call:refused"] += 1
+                            continue
+                        raise Violation("call-raised", f"{what}: {type(e).__name__}: {e}", sig=exc_sig(e))
+                    rels[id(node)] = res
+                    check_locked(res, index, what)
+                    stats.c["calls_checked"] += 1
+                    # transfer to the relation's own engine: original content, same engine
+                    try:
+                        same = res.transferred_to(res.engine)
+                    except Exception as e:
+                        raise Violation("self-transfer-raised", f"transferred_to(own engine) raised {type(e).__name__}: {e}; relation {str(res)[:200]}", sig=exc_sig(e))
+                    if same is not res:
+                        if same.engine is not res.engine:
+                            raise Violation("transfer-wrong-engine", f"transferred_to(own engine) returned a relation in {same.engine}; relation {str(res)[:200]}")
+                        truth = memo[id(node)]
+                        try:
+                            got = execute_processed(envx, make_processor(envx).process(same))
+                        except Exception:
+                            got = None
+                        if got is not None:
+                            bad = compare(truth, got)
+                            if bad:
+                                raise Violation("transfer-changed-content", f"transferred_to(own engine): {bad}; result {str(same)[:200]}; relation {str(res)[:200]}")
+                        stats.c["self-transfer:new-object"] += 1
+                    if node[0] == "mat":
+                        src = peel_same_engine_markers(ops[0])
+                        if isinstance(src, (LeafRelation, Materialization)) and count_mats(res) != count_mats(ops[0]):
+                            raise Violation("materialization-added", f"materialized() of a {type(src).__name__} added a Materialization node: {str(res)[:200]}; call {what}")
+                    if node[0] == "xfer":
+                        dest = envx.engines[node[2]]
+                        if res.engine is not dest:
+                            raise Violation("transfer-wrong-engine", f"result lives in {res.engine}, requested {dest}; call {what}")
+                        truth = memo[id(node)]
+                        proc = make_processor(envx)
+                        try:
+                            got = execute_processed(envx, proc.process(res))
+                        except DatabaseError:
+                            got = None
+                        except Exception as e:
+                            # whether an accepted tree can be compiled / processed at all is C08's and C07's subject
+                            stats.c["transfer:result-not-executable-" + type(e).__name__] += 1
+                            got = None
+                        if got is not None:
+                            bad = compare(truth, got)
+                            if bad:
+                                raise Violation("transfer-changed-content", f"{bad}; result {str(res)[:200]}; call {what}")
+                            stats.c["transfers_compared"] += 1
+                        if node[1][0] == "xfer":
+                            stats.c["transfer-chain"] += 1
+                            nontrivial = True
+
+            run_program(env, leaves, "")
+            # the same program over twin leaves (same names / columns / engines, other rows, distinct objects): equal
+            # relations are not interchangeable - a locked node found by name must be the operand's own object
+            leaves2 = twin_leaves(leaves)
+            tw = env.twin(leaves2)
+            try:
+                run_program(tw, leaves2, "[twin leaves] ")
+                stats.c["twin-programs"] += 1
+            finally:
+                tw.close_tables()
             ks = kinds(prog)
             if nontrivial or ("mat" in ks and "xfer" in ks):
                 stats.mark_nontrivial(codec.digest(case), lambda: describe(case), cls="prog/" + "+".join(sorted(set(ks) & {"mat", "xfer", "join", "chain"})))
